@@ -302,6 +302,44 @@ func c07Scenarios(tier string) []*core.Scenario {
 				},
 			}
 		}})
+	// a mnemonic glued to what follows (PUSH1, RETURN, MOVAX,1, HLTX): not a statement of the language
+	glue := []string{"1", "X", "AX", "AX,1", "URN", "_", "0x10", "B", "S", ".", "$"}
+	scs = append(scs, &core.Scenario{
+		Name: "glued_mnemonics", Bound: -1,
+		Rule:   "every grammar mnemonic directly followed (no blank) by 11 identifier-like suffixes: unless the concatenation is itself a mnemonic, the line is no statement and must be diagnosed - assembling it as the shorter mnemonic plus an operand is a silent mis-assembly",
+		Bounds: map[string]any{"mnemonics": len(grammarMnemonics), "suffixes": glue},
+		Build: func(c *core.Chooser) *core.Case {
+			mn := grammarMnemonics[c.Pick("mn", len(grammarMnemonics))]
+			g := glue[c.Pick("glue", len(glue))]
+			word := mn + g
+			head := word
+			if i := strings.IndexAny(word, ","); i >= 0 {
+				head = word[:i]
+			}
+			for _, other := range grammarMnemonics {
+				if other == head {
+					return nil // e.g. REP + E = REPE, PUSH + AD = PUSHAD: a different, real mnemonic
+				}
+			}
+			src := "pre:\n" + sentinelLine(0) + "\t" + word + "\n" + "post:\n" + sentinelLine(1) + "\tDW post\n"
+			base := "pre:\n" + sentinelLine(0) + "post:\n" + sentinelLine(1) + "\tDW post\n"
+			return &core.Case{
+				Key:  word,
+				Feat: feat("mn", mn, "glue", g),
+				Srcs: []string{src, base},
+				Judge: func(rs []*core.Result) core.Verdict {
+					v := core.Verdict{Nontrivial: true, NTKey: word}
+					if core.ReportsDiag(rs[0], rs[1]) {
+						v.Outcome = "diagnosed"
+						return v
+					}
+					v.Outcome = "accepted"
+					region, _ := between(rs[0].Out, 0, 1)
+					v.Fails = []core.Fail{{Facet: "glued_mnemonic", Dev: "accepted_silently", Detail: fmt.Sprintf("%q assembled without any diagnostic to %x", word, region)}}
+					return v
+				},
+			}
+		}})
 	// file-level shapes
 	prefixes := []string{"", "\n", " \n", ";c\n", "\n\n", "\t\n"}
 	firsts := []string{"\tMOV AX,1\n", "\tmov ax,1\n", "\t@@@\n", "\tMOV AX,\n", "lab:\n", "\tFOO AX\n", "\tDB 1\n\t)\n", "\tMOV AX,1 2\n"}
